@@ -222,3 +222,36 @@ class StandIn:
 
     def radians(self, x):
         return self.mk(x) * (self.pi / 180)
+
+
+
+def install_shims(M, math_shim=None, warn_shim=None):
+    """Replace, in module M, every global that refers to the `math` module, to one of its functions or
+    constants, to the `warnings` module or to `warnings.warn` — whatever names the source uses for them —
+    by the corresponding attribute of the shims.  Returns a function that restores the originals."""
+    import math
+    import warnings
+    saved = {}
+    for k, v in list(vars(M).items()):
+        new = None
+        if math_shim is not None:
+            if v is math:
+                new = math_shim
+            elif v is math.pi and k != 'pi_' and not k.startswith('__'):
+                new = getattr(math_shim, 'pi')
+            elif callable(v) and getattr(v, '__module__', None) == 'math' and \
+                    getattr(math, getattr(v, '__name__', ''), None) is v:
+                new = getattr(math_shim, v.__name__)
+        if new is None and warn_shim is not None:
+            if v is warnings:
+                new = warn_shim
+            elif v is warnings.warn:
+                new = warn_shim.warn
+        if new is not None:
+            saved[k] = v
+            setattr(M, k, new)
+
+    def restore():
+        for k, v in saved.items():
+            setattr(M, k, v)
+    return restore
